@@ -98,6 +98,12 @@ def gen(tier, seed, names):
             cases.append("algcheck\tenccek\t%s\t%s" % (e, b))
             cases.append("algcheck\tdeccek\t%s\t%s" % (e, b))
             dist["alg grid content enc/dec"] += 2
+            if e in names["encr"] and (b in names["encr"] or b == "-"):
+                # the header's enc lives in the shared unprotected header only (RFC 7520 5.12 style), alone or next
+                # to an unrelated protected header: the comparison must use the MERGED header
+                cases.append("algcheck\tdeccekU\t%s\t%s" % (e, b))
+                cases.append("algcheck\tdeccekPU\t%s\t%s" % (e, b))
+                dist["alg grid content dec, enc in the unprotected header"] += 2
     exch = names["exch"] + foreign[:2] + ["-"]
     for a in exch:
         for b in exch:
